@@ -269,13 +269,27 @@ def run(c: Check):
                 all(values_ok(v) for y in r["reloaded"] if y for _, v in y["fields"]) and \
                 all(d["id"] >= 0 for d in r["defs"])
             if ok:
-                coq_cases.append(dict(export=r["export"], root=x["root"], defs=r["defs"], reloaded=r["reloaded"], desc=x["desc"]))
+                coq_cases.append(dict(export=r["export"], root=x["root"], defs=r["defs"], reloaded=r["reloaded"], desc=x["desc"],
+                                      executed=r.get("executed"), executed_error=r.get("executed_error")))
             else:
                 c.count("outside-model")
     c.samples = [dict(desc=x["desc"], root=x["root"]) for x in cases[:2]]
     checker = os.environ.get("VERIF_C12_CHECKER", "check_ccase true true")
     bad = c.corr_shards("corr", HEADER, coq_cases, g_ccase, checker, shard=50)
     c.extra["disagreeing_cases"] = [dict(desc=coq_cases[i]["desc"], root=coq_cases[i]["root"]) for i in bad[:5]]
+    # the lightweight tasks executed by the job process = exec_plan of the model on the saved definitions
+    plans = c.nat_shards("plan", HEADER, coq_cases, g_ccase, "plan_ccase true", shard=50)
+    for k, plan in zip(coq_cases, plans):
+        if plan is None:
+            continue
+        c.count("executed-tasks=%d" % min(len(plan), 4))
+        if k["executed_error"]:
+            c.violation("C12:job-process-load-raises", "loading the saved graph as the job process does raised: " + k["executed_error"][:80],
+                        dict(desc=k["desc"], root=k["root"]))
+        elif k["executed"] != plan:
+            c.violation("C12:executed-tasks-differ", "the job process executes other pre/init tasks (or in another order) than the "
+                        "model's exec_plan: pre-tasks of every saved configuration once, then the init tasks of the task that runs",
+                        dict(desc=k["desc"], root=k["root"], executed=k["executed"], plan=plan))
     c.level_assumptions = [
         "object identity is abstract: definitions and reloaded nodes are aligned on heap positions through the python ids the implementation itself wrote",
         "json.dump/json.load are trusted to round-trip ints, floats (incl. nan/inf/-0.0), strings and nested lists/dicts",
